@@ -5,14 +5,26 @@ what a complete, well-formed control sequence with *symbolic* decimal parameters
 ground state.  Core Lean only.
 
 * `feed_append`, `feed_nil`, `feed_cons`
-* grid algebra: `Grid.get_set_same`, `Grid.get_set_other`, `Grid.get_set`, `Grid.get_fill`, `Grid.get_build`, sizes
-* decimal parameters: `dec` (= `Tcell.Dec.showDec`), `parseNat_dec`, `parseParams_*`
-* `feed_csi_plain`: `ESC [ body final` with a numeric body in the ground state = `dispatchPlain` on the parsed parameters
-* `cup_effect`, `cup_home_effect`
-* `sgr_reset_effect`, `sgr0_effect`, `sgr_fg_idx_effect` / `sgr_bg_idx_effect` (30–37/40–47, 90–97/100–107, 38;5;n / 48;5;n,
-  38:5:n), `sgr_fg_rgb_effect` / `sgr_bg_rgb_effect` (`;` form), `sgr_fg_rgb_colon_effect`
-* `print_narrow_effect`, `print_narrow_cells`
-* `ed2_effect`, `ed2_cells`
+* grid algebra: `Grid.get_set_same`, `Grid.get_set_other`, `Grid.get_set`, `Grid.get_fill`, `Grid.get_build`, `Grid.clobber_noop`
+* decimal parameters: `dec` (= `Tcell.Dec.showDec`), `parseNat_dec`, `parseNum_dec`, `dec_lt10`, `dec_append_digit`,
+  `splitBy_*`, `parseParam_cons/last/dec`, `parseParams_cons/last/append`
+* lexing: `feed_csi` (`ESC [ body final` = `dispatchCsi`), `feed_csi_plain` (numeric body = `dispatchPlain` on the parsed
+  parameters), `parseCsiBody_numeric/private`, `feed_osc_st`, `feed_osc_bel` (= `dispatchOsc` on the payload)
+* cursor: `cup_effect` (∀ r c), `cup_home_effect`
+* SGR: `sgr_reset_effect`, `sgr0_effect`, `sgr_single`, `sgr_fg_idx_effect` / `sgr_bg_idx_effect` (30–37 / 40–47),
+  `sgr_fg_bright_effect` / `sgr_bg_bright_effect` (90–97 / 100–107), `sgr_ext_idx_effect` (38/48/58 ; 5 ; n) with
+  `sgr_fg_256_effect` / `sgr_bg_256_effect`, `sgr_ext_rgb_effect` (38/48/58 ; 2 ; r ; g ; b) with `sgr_fg_rgb_effect` /
+  `sgr_bg_rgb_effect`, colon forms `sgr_colon_idx_effect` (w:5:n), `sgr_colon_rgb_effect` (w:2::r:g:b),
+  `sgr_ul_style_effect` (4:s); composition: `applySgr_step`, `applySgr_fuel`, `sgr_cons`, `sgr_cons_ext5`,
+  `sgr_cons_ext2`, `sgr_two_effect` (`ESC [ a ; b m` = the two SGRs in sequence)
+* modes: `decset_effect`, `decrst_effect` (∀ n: = `decMode n on`), `decMode_st`
+* OSC 8: `osc8_open_effect`, `osc8_close_effect`
+* printing: `print_narrow_effect`, `print_narrow_cells`, `print_last_col_effect`
+* erase: `ed2_effect`, `ed2_cells`, `clear_effect` (`ESC [ H ESC [ 2 J`)
+
+How to derive the effect of another fixed capability string on a symbolic terminal `t` with `t.st = .ground`: cut it into
+complete sequences with `feed_append`, use `feed_csi_plain` / `feed_csi` / `feed_osc_st` with the concrete body (the
+parse facts are closed terms: `by decide`), then `simp [dispatchPlain, …]`; see `sgr0_effect`, `ed2_effect`, `clear_effect`.
 -/
 namespace Tcell.Spec.Ecma48
 
@@ -781,6 +793,292 @@ theorem sgr_two_effect (t : Term) (hst : t.st = .ground) (a b : Nat) (ha : a ≠
   have : dispatchPlain t ([[some a]] ++ [[some b]]) 0x6d = t.sgr ([some a] :: [[some b]]) := by simp [dispatchPlain]
   rw [this, sgr_cons t [some a] [[some b]] (by
     refine ⟨?_, ?_, ?_⟩ <;> intro h <;> simp at h <;> omega)]
+
+end Term
+
+/-! ## private modes, colon forms, OSC, the last column -/
+
+theorem parseCsiBody_private (body : List Nat) (h : ∀ b ∈ body, (48 ≤ b ∧ b ≤ 57) ∨ b = 0x3b ∨ b = 0x3a) :
+    parseCsiBody (0x3f :: body) = (parseParams body).map fun ps => { priv := 0x3f, params := ps, inter := [] } := by
+  have hp : ∀ b ∈ body, isParamByte b = true := by
+    intro b hb
+    rcases h b hb with h1 | h1 | h1
+    · simp [isParamByte]; omega
+    · subst h1; decide
+    · subst h1; decide
+  have ht : body.takeWhile isParamByte = body := takeWhile_all _ _ hp
+  have hd : body.dropWhile isParamByte = [] := dropWhile_all _ _ hp
+  simp [parseCsiBody, ht, hd]
+  cases parseParams body <;> simp
+
+namespace Term
+
+/-- **DECSET** `ESC [ ? n h` -/
+theorem decset_effect (t : Term) (hst : t.st = .ground) (n : Nat) :
+    t.feed (csiSeq (0x3f :: dec n) 0x68) = t.decMode n true := by
+  have hps : parseParams (dec n) = some [[some n]] := by
+    rw [parseParams_last _ (semi_not_mem_dec _), parseParam_dec]; rfl
+  rw [feed_csi t hst _ 0x68 (fun b hb => by
+    rcases List.mem_cons.mp hb with h | h
+    · omega
+    · have := dec_digits n b h; omega) (by omega)]
+  simp [dispatchCsi, parseCsiBody_private _ (numeric_dec n), hps, eachParam]
+
+/-- **DECRST** `ESC [ ? n l` -/
+theorem decrst_effect (t : Term) (hst : t.st = .ground) (n : Nat) :
+    t.feed (csiSeq (0x3f :: dec n) 0x6c) = t.decMode n false := by
+  have hps : parseParams (dec n) = some [[some n]] := by
+    rw [parseParams_last _ (semi_not_mem_dec _), parseParam_dec]; rfl
+  rw [feed_csi t hst _ 0x6c (fun b hb => by
+    rcases List.mem_cons.mp hb with h | h
+    · omega
+    · have := dec_digits n b h; omega) (by omega)]
+  simp [dispatchCsi, parseCsiBody_private _ (numeric_dec n), hps, eachParam]
+
+/-- the mode-changing functions keep the parser in the ground state (so effects chain) -/
+theorem decMode_st (t : Term) (n : Nat) (on : Bool) : (t.decMode n on).st = t.st := by
+  simp [decMode, apply_ite Term.st, complain, saveCursor, swapScreens, restoreCursor, eraseAll]
+
+/-- **underline style** `ESC [ 4 : s m` -/
+theorem sgr_ul_style_effect (t : Term) (hst : t.st = .ground) (s : Nat) (hs : s ≤ 5) :
+    t.feed (csiSeq (0x34 :: 0x3a :: dec s) 0x6d) = { t with pen := { t.pen with ul := s } } := by
+  have hp : parseParam ([0x34] ++ 0x3a :: dec s) = some [some 4, some s] := by
+    rw [parseParam_cons _ _ (by decide), parseParam_last _ (colon_not_mem_dec s), parseNum_dec]; rfl
+  have hps : parseParams (0x34 :: 0x3a :: dec s) = some [[some 4, some s]] := by
+    have hsemi : 0x3b ∉ (0x34 :: 0x3a :: dec s) := by
+      intro h
+      rcases List.mem_cons.mp h with h | h
+      · omega
+      · rcases List.mem_cons.mp h with h | h
+        · omega
+        · exact semi_not_mem_dec s h
+    rw [parseParams_last _ hsemi]
+    show Option.map _ (parseParam ([0x34] ++ 0x3a :: dec s)) = _
+    rw [hp]; rfl
+  have hbody : ∀ b ∈ 0x34 :: 0x3a :: dec s, (48 ≤ b ∧ b ≤ 57) ∨ b = 0x3b ∨ b = 0x3a := by
+    intro b hb
+    rcases List.mem_cons.mp hb with h | h
+    · subst h; decide
+    · rcases List.mem_cons.mp h with h | h
+      · exact Or.inr (Or.inr h)
+      · exact numeric_dec _ b h
+  rw [feed_csi_plain t hst _ 0x6d _ hbody (by omega) hps]
+  simp [dispatchPlain, sgr, applySgr, hs]
+
+/-- **colon form of the 256-colour selection** `ESC [ which : 5 : n m` (kitty `setaf`, tcell's underline colour) -/
+theorem sgr_colon_idx_effect (t : Term) (hst : t.st = .ground) (which n : Nat)
+    (hw : which = 38 ∨ which = 48 ∨ which = 58) (hn : n ≤ 255) :
+    t.feed (csiSeq (dec which ++ 0x3a :: 0x35 :: 0x3a :: dec n) 0x6d) = { t with pen := setExt t.pen which (.idx n) } := by
+  have hp : parseParam (dec which ++ 0x3a :: ([0x35] ++ 0x3a :: dec n)) = some [some which, some 5, some n] := by
+    rw [parseParam_cons _ _ (colon_not_mem_dec _), parseNum_dec, parseParam_cons _ _ (by decide),
+      parseParam_last _ (colon_not_mem_dec n), parseNum_dec]
+    rfl
+  have hsemi : 0x3b ∉ (dec which ++ 0x3a :: 0x35 :: 0x3a :: dec n) := by
+    intro h
+    simp only [List.mem_append, List.mem_cons] at h
+    rcases h with h | h | h | h | h
+    · exact semi_not_mem_dec _ h
+    · omega
+    · omega
+    · omega
+    · exact semi_not_mem_dec _ h
+  have hps : parseParams (dec which ++ 0x3a :: 0x35 :: 0x3a :: dec n) = some [[some which, some 5, some n]] := by
+    rw [parseParams_last _ hsemi]
+    show Option.map _ (parseParam (dec which ++ 0x3a :: ([0x35] ++ 0x3a :: dec n))) = _
+    rw [hp]; rfl
+  have hbody : ∀ b ∈ dec which ++ 0x3a :: 0x35 :: 0x3a :: dec n, (48 ≤ b ∧ b ≤ 57) ∨ b = 0x3b ∨ b = 0x3a := by
+    intro b hb
+    simp only [List.mem_append, List.mem_cons] at hb
+    rcases hb with h | h | h | h | h
+    · exact numeric_dec _ b h
+    · exact Or.inr (Or.inr h)
+    · subst h; decide
+    · exact Or.inr (Or.inr h)
+    · exact numeric_dec _ b h
+  rw [feed_csi_plain t hst _ 0x6d _ hbody (by omega) hps]
+  have h4 : which ≠ 4 := by omega
+  simp [dispatchPlain, sgr, applySgr, h4, hw, colonColor, colorOk, hn]
+
+/-- **colon form of direct colour with empty colour-space field** `ESC [ which : 2 : : r : g : b m` -/
+theorem sgr_colon_rgb_effect (t : Term) (hst : t.st = .ground) (which r g b : Nat)
+    (hw : which = 38 ∨ which = 48 ∨ which = 58) (hr : r ≤ 255) (hg : g ≤ 255) (hb : b ≤ 255) :
+    t.feed (csiSeq (dec which ++ 0x3a :: 0x32 :: 0x3a :: 0x3a :: (dec r ++ 0x3a :: (dec g ++ 0x3a :: dec b))) 0x6d) =
+      { t with pen := setExt t.pen which (.rgb r g b) } := by
+  have hp : parseParam (dec which ++ 0x3a :: ([0x32] ++ 0x3a :: ([] ++ 0x3a :: (dec r ++ 0x3a :: (dec g ++ 0x3a :: dec b))))) =
+      some [some which, some 2, none, some r, some g, some b] := by
+    rw [parseParam_cons _ _ (colon_not_mem_dec _), parseNum_dec, parseParam_cons _ _ (by decide),
+      parseParam_cons _ _ (by simp), parseParam_cons _ _ (colon_not_mem_dec _), parseNum_dec,
+      parseParam_cons _ _ (colon_not_mem_dec _), parseNum_dec, parseParam_last _ (colon_not_mem_dec b), parseNum_dec]
+    rfl
+  have hsemi : 0x3b ∉ (dec which ++ 0x3a :: 0x32 :: 0x3a :: 0x3a :: (dec r ++ 0x3a :: (dec g ++ 0x3a :: dec b))) := by
+    intro h
+    simp only [List.mem_append, List.mem_cons] at h
+    rcases h with h | h | h | h | h | h | h | h | h | h
+    · exact semi_not_mem_dec _ h
+    · omega
+    · omega
+    · omega
+    · omega
+    · exact semi_not_mem_dec _ h
+    · omega
+    · exact semi_not_mem_dec _ h
+    · omega
+    · exact semi_not_mem_dec _ h
+  have hps : parseParams (dec which ++ 0x3a :: 0x32 :: 0x3a :: 0x3a :: (dec r ++ 0x3a :: (dec g ++ 0x3a :: dec b))) =
+      some [[some which, some 2, none, some r, some g, some b]] := by
+    rw [parseParams_last _ hsemi]
+    show Option.map _ (parseParam (dec which ++ 0x3a :: ([0x32] ++ 0x3a :: ([] ++ 0x3a :: (dec r ++ 0x3a :: (dec g ++ 0x3a :: dec b)))))) = _
+    rw [hp]; rfl
+  have hbody : ∀ x ∈ dec which ++ 0x3a :: 0x32 :: 0x3a :: 0x3a :: (dec r ++ 0x3a :: (dec g ++ 0x3a :: dec b)),
+      (48 ≤ x ∧ x ≤ 57) ∨ x = 0x3b ∨ x = 0x3a := by
+    intro x hx
+    simp only [List.mem_append, List.mem_cons] at hx
+    rcases hx with h | h | h | h | h | h | h | h | h | h
+    · exact numeric_dec _ x h
+    · exact Or.inr (Or.inr h)
+    · subst h; decide
+    · exact Or.inr (Or.inr h)
+    · exact Or.inr (Or.inr h)
+    · exact numeric_dec _ x h
+    · exact Or.inr (Or.inr h)
+    · exact numeric_dec _ x h
+    · exact Or.inr (Or.inr h)
+    · exact numeric_dec _ x h
+  rw [feed_csi_plain t hst _ 0x6d _ hbody (by omega) hps]
+  have h4 : which ≠ 4 := by omega
+  simp [dispatchPlain, sgr, applySgr, h4, hw, colonColor, colorOk, hr, hg, hb]
+
+/-! ### OSC -/
+
+theorem feed_osc_collect (t : Term) (rev bs : List Nat)
+    (h : ∀ b ∈ bs, 0x20 ≤ b ∧ b ≠ 0x7f ∧ (b = 0x9c → t.cfg.utf8 = true ∨ t.cfg.c1Controls = false)) :
+    ({ t with st := .osc rev } : Term).feed bs = { t with st := .osc (bs.reverse ++ rev) } := by
+  induction bs generalizing rev with
+  | nil => simp
+  | cons b bs ih =>
+    have hb := h b (by simp)
+    have h1 : b ≠ 0x07 := by omega
+    have h2 : b ≠ 0x1b := by omega
+    have h3 : ¬ (b < 0x20 ∨ b = 0x7f) := by omega
+    have h4 : ¬ (b = 0x9c ∧ (!t.cfg.utf8) = true ∧ t.cfg.c1Controls = true) := by
+      intro hh
+      rcases hb.2.2 hh.1 with h5 | h5
+      · simp [h5] at hh
+      · simp [h5] at hh
+    have e : ({ t with st := .osc rev } : Term).feedByte b = { t with st := .osc (b :: rev) } := by
+      simp [feedByte, feedOsc, h1, h2, h3]
+      intro e1 hu hc
+      exact absurd ⟨e1, by simp [hu], hc⟩ h4
+    rw [feed_cons, e, ih (b :: rev) (fun x hx => h x (by simp [hx]))]
+    simp
+
+/-- `ESC ] payload ESC \` (ST-terminated) with a payload free of controls = `dispatchOsc` on the payload -/
+theorem feed_osc_st (t : Term) (hst : t.st = .ground) (payload : List Nat)
+    (h : ∀ b ∈ payload, 0x20 ≤ b ∧ b ≠ 0x7f ∧ (b = 0x9c → t.cfg.utf8 = true ∨ t.cfg.c1Controls = false)) :
+    t.feed ([0x1b, 0x5d] ++ payload ++ [0x1b, 0x5c]) = dispatchOsc t payload := by
+  have e1 : t.feedByte 0x1b = { t with st := .esc } := by simp [feedByte, hst, feedGround, c0]
+  have e2 : ({ t with st := .esc } : Term).feedByte 0x5d = { t with st := .osc [] } := by simp [feedByte, feedEsc]
+  have e3 : ∀ rev, ({ t with st := .osc rev } : Term).feedByte 0x1b = { t with st := .oscEsc rev } := by
+    intro rev; simp [feedByte, feedOsc]
+  have e4 : ∀ rev, ({ t with st := .oscEsc rev } : Term).feedByte 0x5c = dispatchOsc { t with st := .ground } rev.reverse := by
+    intro rev; simp [feedByte, feedOscEsc]
+  show t.feed (0x1b :: 0x5d :: (payload ++ [0x1b, 0x5c])) = _
+  rw [feed_cons, e1, feed_cons, e2, ← feed_append, feed_osc_collect _ _ _ h, feed_cons, e3, feed_cons, e4, feed_nil]
+  simp [with_ground t hst]
+
+/-- `ESC ] payload BEL` -/
+theorem feed_osc_bel (t : Term) (hst : t.st = .ground) (payload : List Nat)
+    (h : ∀ b ∈ payload, 0x20 ≤ b ∧ b ≠ 0x7f ∧ (b = 0x9c → t.cfg.utf8 = true ∨ t.cfg.c1Controls = false)) :
+    t.feed ([0x1b, 0x5d] ++ payload ++ [0x07]) = dispatchOsc t payload := by
+  have e1 : t.feedByte 0x1b = { t with st := .esc } := by simp [feedByte, hst, feedGround, c0]
+  have e2 : ({ t with st := .esc } : Term).feedByte 0x5d = { t with st := .osc [] } := by simp [feedByte, feedEsc]
+  have e3 : ∀ rev, ({ t with st := .osc rev } : Term).feedByte 0x07 = dispatchOsc { t with st := .ground } rev.reverse := by
+    intro rev; simp [feedByte, feedOsc]
+  show t.feed (0x1b :: 0x5d :: (payload ++ [0x07])) = _
+  rw [feed_cons, e1, feed_cons, e2, ← feed_append, feed_osc_collect _ _ _ h, feed_cons, e3, feed_nil]
+  simp [with_ground t hst]
+
+/-- **hyperlink off** `ESC ] 8 ; ; ESC \` -/
+theorem osc8_close_effect (t : Term) (hst : t.st = .ground) :
+    t.feed [0x1b, 0x5d, 0x38, 0x3b, 0x3b, 0x1b, 0x5c] = { t with linkKnown := true, pen := { t.pen with link := none } } := by
+  have := feed_osc_st t hst [0x38, 0x3b, 0x3b] (by
+    intro b hb
+    simp only [List.mem_cons, List.not_mem_nil, or_false] at hb
+    rcases hb with h | h | h <;> subst h <;> simp)
+  simp only [List.cons_append, List.nil_append] at this
+  rw [this]
+  have h1 : splitFirst [0x38, 0x3b, 0x3b] = ([0x38], some [0x3b]) := by decide
+  have h2 : splitFirst [0x3b] = ([], some []) := by decide
+  simp [dispatchOsc, h1, h2, isDigit, parseNat]
+
+/-- **hyperlink on** `ESC ] 8 ; id ; uri ESC \` for a non-empty `uri` and an `id` without `;` -/
+theorem osc8_open_effect (t : Term) (hst : t.st = .ground) (id uri : List Nat)
+    (hid : ∀ b ∈ id, 0x20 ≤ b ∧ b ≠ 0x7f ∧ b ≠ 0x3b ∧ b ≠ 0x9c)
+    (huri : ∀ b ∈ uri, 0x20 ≤ b ∧ b ≠ 0x7f ∧ b ≠ 0x9c) (hne : uri ≠ []) :
+    t.feed ([0x1b, 0x5d] ++ (0x38 :: 0x3b :: (id ++ 0x3b :: uri)) ++ [0x1b, 0x5c]) =
+      { t with linkKnown := true, pen := { t.pen with link := some (t.text id, t.text uri) } } := by
+  rw [feed_osc_st t hst _ (by
+    intro b hb
+    simp only [List.mem_cons, List.mem_append] at hb
+    rcases hb with h | h | h | h | h
+    · subst h; simp
+    · subst h; simp
+    · have := hid b h; exact ⟨this.1, this.2.1, fun e => absurd e this.2.2.2⟩
+    · subst h; simp
+    · have := huri b h; exact ⟨this.1, this.2.1, fun e => absurd e this.2.2⟩)]
+  have hloop : ∀ (l r acc : List Nat), (∀ b ∈ l, b ≠ 0x3b) →
+      List.span.loop (· != 0x3b) (l ++ 0x3b :: r) acc = (acc.reverse ++ l, 0x3b :: r) := by
+    intro l r acc hl
+    induction l generalizing acc with
+    | nil => simp [List.span.loop]
+    | cons x xs ih =>
+      have hx : x ≠ 0x3b := hl x (by simp)
+      have := ih (x :: acc) (fun b hb => hl b (by simp [hb]))
+      have hx' : (x != 0x3b) = true := by simp [hx]
+      simp [List.span.loop, hx', this]
+  have hspan : ∀ (l r : List Nat), (∀ b ∈ l, b ≠ 0x3b) → (l ++ 0x3b :: r).span (· != 0x3b) = (l, 0x3b :: r) := by
+    intro l r hl
+    simpa [List.span] using hloop l r [] hl
+  have h1 : splitFirst (0x38 :: 0x3b :: (id ++ 0x3b :: uri)) = ([0x38], some (id ++ 0x3b :: uri)) := by
+    have := hspan [0x38] (id ++ 0x3b :: uri) (by simp)
+    simp only [List.cons_append, List.nil_append] at this
+    simp [splitFirst, this]
+  have h2 : splitFirst (id ++ 0x3b :: uri) = (id, some uri) := by
+    simp [splitFirst, hspan id uri (fun b hb => (hid b hb).2.2.1)]
+  have h3 : uri.isEmpty = false := by cases uri <;> simp_all
+  simp [dispatchOsc, h1, h2, h3, isDigit, parseNat]
+
+/-! ### the last column -/
+
+/-- **a narrow ASCII glyph in the last column**: the cell is written, the cursor stays; with auto-margin a wrap
+    becomes pending -/
+theorem print_last_col_effect (t : Term) (b : Nat) (hst : t.st = .ground) (hb : 0x20 ≤ b ∧ b < 0x7f)
+    (hw : t.cfg.utf8 = true → t.cfg.rw (b : Int) = 1)
+    (hfont : t.modes.altFont = 0) (hacs : acsActive t.modes = false)
+    (hk : t.cursorKnown = true) (hpw : t.pendingWrap = false) (hirm : t.modes.insertMode = false)
+    (hx : t.cx + 1 = t.w)
+    (hc0 : (t.get t.cx t.cy).cont = false) :
+    t.feedByte b =
+      { t with
+        grid := t.grid.set t.cx t.cy (t.glyphCell b)
+        pendingWrap := t.modes.autoMargin
+        last := some (t.cx, t.cy, t.cx, t.cy, t.modes.autoMargin) } := by
+  have hwd : t.widthOf (b : Int) = 1 := by
+    unfold widthOf
+    cases hu : t.cfg.utf8 with
+    | false => simp
+    | true => simp [hw hu]
+  have h1 : ¬ b < 0x20 := by omega
+  have h2 : b ≠ 0x7f := by omega
+  have h3 : b < 0x80 := by omega
+  have hc1 : (t.grid.get (t.cx + 1) t.cy).cont = false := by
+    rw [Grid.get_out]
+    have : t.w = t.grid.w := rfl
+    omega
+  have hcl : t.grid.clobber t.blocks t.cx t.cy = t.grid := Grid.clobber_noop _ _ _ _ hc0 hc1
+  have hx' : ¬ t.cx + 1 < t.w := by omega
+  simp [feedByte, hst, feedGround, h1, h2, h3, printByte, hfont, hacs, hwd, putGlyph, putNarrow, hk, doWrap, hpw, hirm,
+    putNarrowAt, hcl, hx']
 
 end Term
 
